@@ -186,6 +186,18 @@ CHECKS = {
         "Annotation contents = type + instance fields. Known finding: annotations are keyed by hash() (exact case lists).",
         "DESIGN.md §2 C06",
     ),
+    "C07": (
+        "model_checking",
+        "explicit-state BFS over expressions (E1) with annotated leaf variants on the real constructors; annotation-contract monitor on every transition; exhaustive enumeration of annotated constraint lists on the solver frontends",
+        "E1 at widths 1-2 (thorough +3, 8) to depth 2 where variables and constants also occur with eliminatable / "
+        "non-eliminatable / relocatable annotations: on every transition the non-eliminatable annotations reachable in "
+        "the arguments stay reachable and the relocatable ones are on the result; claripy.simplify keeps top and "
+        "relocatable annotations; every <=2 (3) constraint list x annotation kind x pre-query on Solver, "
+        "SolverComposite, SolverHybrid, SolverReplacement: avoidance-annotated constraints are the same object after "
+        "simplify() and the model set is unchanged.",
+        "Eliminatable annotations may vanish at any time. Relocatable = present on the result node itself.",
+        "DESIGN.md §2 C07",
+    ),
 }
 
 NOT_YET = "check not built yet in this session (planned; see DESIGN.md §2)"
